@@ -13,28 +13,6 @@ ASSUMPTIONS = ["release-mode (wrapping) integer semantics; debug-build overflow 
                "div_round_i64/i128 are private to poulpy-hal::layouts::encoding and are exercised only through the decoders (divisor 2^rem)"]
 
 
-def _rec(record):
-    code, ps, vs, _ = record.split("#", 3)
-    h = lambda s: int(s, 16)
-    return int(code), [h(x) for x in ps.split()], [[h(x) for x in v.split()] for v in vs.split(";")]
-
-
 def classify(record):
-    """known finding: the first carry of the i64 / i128 encoders wraps at the top of the type (x - digit = 2^(w-1)),
-    so for k > w the limbs hold v - 2^w"""
-    try:
-        code, ps, vs = _rec(record)
-    except Exception:
-        return None
-    if code not in (8301, 8302, 8303):
-        return None
-    w = 128 if code == 8302 else 64
-    b, k = ps[10], ps[11]
-    if k <= w:
-        return None
-    kp = k % b or b
-    for v in vs[1]:
-        d = ((v + (1 << (kp - 1))) % (1 << kp)) - (1 << (kp - 1))
-        if v - d >= 1 << (w - 1):
-            return "encode.first_carry_wraps"
+    # no open finding: encode.first_carry_wraps was repaired in /repo (ba594a2) and the model follows the repaired code
     return None
